@@ -178,9 +178,16 @@ impl<'w, 's> ReactCommands<'w, 's>
     /// - Does nothing if the entity does not exist.
     pub fn insert<C: ReactComponent>(&mut self, entity: Entity, component: C)
     {
-        let Some(mut entity_commands) = self.commands.get_entity(entity) else { return; };
-        entity_commands.try_insert( React{ entity, component } );
-        self.commands.syscall_with_validation(entity, ReactCache::schedule_insertion_reaction::<C>, validate_rc);
+        if self.commands.get_entity(entity).is_none() { return; }
+        self.commands.queue(
+            move |world: &mut World|
+            {
+                // The entity may have been despawned after this command was queued.
+                let Ok(mut entity_mut) = world.get_entity_mut(entity) else { return; };
+                entity_mut.insert( React{ entity, component } );
+                world.syscall_with_validation(entity, ReactCache::schedule_insertion_reaction::<C>, validate_rc);
+            }
+        );
     }
 
     /// Sends a broadcasted event.
